@@ -1820,6 +1820,65 @@ impl<E: Effect> Environment<E> {
     }
 }
 
+/// Read-only snapshot of environment-private routing state (verification harness).
+#[cfg(feature = "verif")]
+#[derive(Debug, Clone, Default)]
+pub struct VerifEnvironmentView {
+    pub next_process_id: ProcessId,
+    /// pid -> worker, sorted by pid.
+    pub router: Vec<(ProcessId, WorkerId)>,
+    /// awaiter -> (workers still expected, per answered worker the targets reported finished).
+    pub pending_awaits: Vec<(ProcessId, Vec<WorkerId>, Vec<(WorkerId, Vec<ProcessId>)>)>,
+    /// resource -> owning pid, sorted by resource.
+    pub resource_ownership: Vec<(ResourceId, ProcessId)>,
+}
+
+#[cfg(feature = "verif")]
+impl<E: Effect> Environment<E> {
+    pub fn verif_view(&self) -> VerifEnvironmentView {
+        let mut router: Vec<(ProcessId, WorkerId)> =
+            self.process_router.iter().map(|(p, w)| (*p, *w)).collect();
+        router.sort_unstable();
+        let mut pending_awaits: Vec<_> = self
+            .pending_awaits
+            .iter()
+            .map(|(awaiter, pending)| {
+                let mut expected: Vec<WorkerId> =
+                    pending.expected_workers.iter().copied().collect();
+                expected.sort_unstable();
+                let mut responses: Vec<(WorkerId, Vec<ProcessId>)> = pending
+                    .responses
+                    .iter()
+                    .map(|(worker, results)| {
+                        let mut finished: Vec<ProcessId> = results
+                            .iter()
+                            .filter(|(_, r)| r.is_some())
+                            .map(|(p, _)| *p)
+                            .collect();
+                        finished.sort_unstable();
+                        (*worker, finished)
+                    })
+                    .collect();
+                responses.sort();
+                (*awaiter, expected, responses)
+            })
+            .collect();
+        pending_awaits.sort();
+        let mut resource_ownership: Vec<(ResourceId, ProcessId)> = self
+            .resource_ownership
+            .iter()
+            .map(|(r, p)| (*r, *p))
+            .collect();
+        resource_ownership.sort_unstable();
+        VerifEnvironmentView {
+            next_process_id: self.next_process_id,
+            router,
+            pending_awaits,
+            resource_ownership,
+        }
+    }
+}
+
 #[cfg(test)]
 impl<E: Effect> Environment<E> {
     /// Test helper: merge a bytecode's types/tuples and return the merged index of its first
